@@ -273,6 +273,10 @@ func faultMatrix(meta *common.Meta, tier string, outDir string) int {
 		{name: "bad-go-version-go-prefix-only", cliArgs: []string{"-go=go1.18.rc1", "-v"}, anArgs: []string{"-go=go1.18.rc1", "-debug-init"}, keywords: []string{"rc1", "version"}, parseOK: true, goOK: false, nonEmpty: true, loadOK: true},
 		{name: "bad-go-version-verbose", cliArgs: []string{"-go=1.x", "-v"}, anArgs: []string{"-go=1.x", "-debug-init"}, keywords: []string{"1.x", "version"}, parseOK: true, goOK: false, nonEmpty: true, loadOK: true},
 		{name: "empty-selection-verbose", cliArgs: []string{"-enable=nosuchchecker", "-v"}, anArgs: []string{"-enable=nosuchchecker", "-debug-init"}, keywords: []string{"empty"}, parseOK: true, goOK: true, nonEmpty: false, loadOK: true},
+		// a rules list is judged element by element: one unmatched element (glob or plain path, first or last) is an error
+		{name: "rules-list-partly-unmatched", cliArgs: []string{"-enable=ruleguard,captLocal", "-@ruleguard.rules=" + rules + ",/nonexistent-verif/r-*.go"}, anArgs: []string{"-enable=ruleguard,captLocal", "-disable=", "-@ruleguard.rules=" + rules + ",/nonexistent-verif/r-*.go"}, keywords: []string{"no file matching"}, parseOK: true, goOK: true, nonEmpty: true, ctorErr: true, loadOK: true},
+		{name: "rules-list-first-unmatched", cliArgs: []string{"-enable=ruleguard,captLocal", "-@ruleguard.rules=/nonexistent-verif/r-*.go," + rules}, anArgs: []string{"-enable=ruleguard,captLocal", "-disable=", "-@ruleguard.rules=/nonexistent-verif/r-*.go," + rules}, keywords: []string{"no file matching"}, parseOK: true, goOK: true, nonEmpty: true, ctorErr: true, loadOK: true},
+		{name: "rules-plain-path-missing", cliArgs: []string{"-enable=ruleguard,captLocal", "-@ruleguard.rules=" + rules + ",/nonexistent-verif/plain.go"}, anArgs: []string{"-enable=ruleguard,captLocal", "-disable=", "-@ruleguard.rules=" + rules + ",/nonexistent-verif/plain.go"}, keywords: []string{"no file matching"}, parseOK: true, goOK: true, nonEmpty: true, ctorErr: true, loadOK: true},
 		// numeric flags outside their domain (the pool size must be positive)
 		{name: "zero-concurrency", cliArgs: []string{"-enable=captLocal", "-concurrency=0"}, anArgs: nil, keywords: []string{"concurrency"}, parseOK: false, goOK: true, nonEmpty: true, loadOK: true, timeout: 25 * time.Second},
 		{name: "negative-concurrency", cliArgs: []string{"-enable=captLocal", "-concurrency=-1"}, anArgs: nil, keywords: []string{"concurrency"}, parseOK: false, goOK: true, nonEmpty: true, loadOK: true, timeout: 25 * time.Second},
@@ -290,7 +294,7 @@ func faultMatrix(meta *common.Meta, tier string, outDir string) int {
 	for _, f := range faults {
 		for _, n := range counts {
 			pkgs := []string{"./p1", "./p2", "./p3"}[:n]
-			for _, exe := range []string{"go-critic", "gocritic", "go-critic-analysis", "gocritic-analysis"} {
+			for _, exe := range []string{"go-critic", "gocritic", "go-critic-analysis", "gocritic-analysis", "go-critic -exitCode=0", "gocritic -exitCode=0"} {
 				isAn := strings.HasSuffix(exe, "-analysis")
 				var args []string
 				if isAn {
@@ -300,6 +304,14 @@ func faultMatrix(meta *common.Meta, tier string, outDir string) int {
 					args = append(append([]string(nil), f.anArgs...), pkgs...)
 				} else {
 					args = append(append([]string{"check"}, f.cliArgs...), pkgs...)
+				}
+				// the status chosen for "issues found" must not become the status of a configuration error
+				if strings.HasSuffix(exe, " -exitCode=0") {
+					if n != 1 || f.name == "valid" {
+						continue
+					}
+					exe = strings.TrimSuffix(exe, " -exitCode=0")
+					args = append([]string{"check", "-exitCode=0"}, args[1:]...)
 				}
 				env := append(common.GoEnv(), f.envExtra...)
 				to := 180 * time.Second
